@@ -76,7 +76,8 @@ def rule(F, rule_id, file_re, floor):
 		if not incs:
 			out.append(Result(rule_id, False, 'anchor:handled-counter@' + short, '%s: the handled-events counter is never advanced' % short, where=F.where(n)))
 			continue
-		ok_edges = {(sb, m['Ok']) for sb, m, other in sw if m.get('Ok') is not None}
+		# `if let Err(e) = res { .. break }` lists only the Err value: the Ok edge is then the switch's `otherwise`
+		ok_edges = {(sb, m['Ok'] if m.get('Ok') is not None else other) for sb, m, other in sw if (m.get('Ok') is not None or ('Err' in m and other is not None))}
 		p = fu.path([0], incs, removed_edges=ok_edges)
 		ok = p is None and bool(ok_edges)
 		out.append(Result(rule_id, ok, ('ok:' if ok else 'lost:') + 'event-drained-only-after-ok@' + short,
